@@ -236,3 +236,85 @@ Definition finit (reg0 : option index) (store0 : list index) : fstate :=
 
 Definition fquiescent (s : fstate) : Prop :=
   forall t, f_pcs s t = FIdle \/ exists r, f_pcs s t = FDone r.
+
+(* ---------- replay of a visible schedule (as in Model/Merge.v), channel level ---------- *)
+
+Definition ftry (sg : bool) (acc : fstate * bool) (e : fevent) : fstate * bool :=
+  match fstep sg (fst acc) e with Some s' => (s', true) | None => acc end.
+
+(* one pass over callers 0..n-1: channel operations of complete(), the swap, receives of
+   available result statuses, releases *)
+Fixpoint fsettle_pass (sg : bool) (n : nat) (s : fstate) : fstate * bool :=
+  match n with
+  | O => (s, false)
+  | S k =>
+      let acc := fsettle_pass sg k s in
+      match f_pcs (fst acc) k with
+      | FNotify _ _ => ftry sg acc (FENotify k)
+      | FSwap _ => ftry sg acc (FESwap k)
+      | FRet _ => ftry sg acc (FEDone k)
+      | FWait g =>
+          match fbuf (f_chans (fst acc) g) with
+          | Some FMain => acc            (* who takes the main status is decided by the schedule (VP) *)
+          | _ => ftry sg acc (FERecv k)
+          end
+      | _ => acc
+      end
+  end.
+
+Fixpoint fsettle (sg : bool) (n fuel : nat) (s : fstate) : fstate :=
+  match fuel with
+  | O => s
+  | S f => let (s1, ch) := fsettle_pass sg n s in if ch then fsettle sg n f s1 else s1
+  end.
+
+Definition fvis_step (sg : bool) (changes : list change) (acc : fstate * list obs) (v : vis)
+  : option (fstate * list obs) :=
+  let (s, log) := acc in
+  let n := length changes in
+  let r :=
+    match v with
+    | VG t => match frun sg s [FEGet t (nth t changes (Add empty_desc)); FEAssign t] with
+              | Some s1 => Some (s1, log) | None => None end
+    | VP t f =>
+        match frun sg s [FERecv t; FEPrepare t f] with
+        | Some s1 =>
+            let log1 := match f_pcs s1 t with
+                        | FPrepared (Some _) => log ++ [OBatch t (map fst (f_items s1))]
+                        | _ => log
+                        end in
+            match fstep sg s1 (FECommit t) with Some s2 => Some (s2, log1) | None => None end
+        | None => None
+        end
+    | VU t f =>
+        let log1 := match f_pcs s t with FNeedPut nw _ => log ++ [OPut t nw] | _ => log end in
+        match fstep sg s (FEPut t f) with Some s1 => Some (s1, log1) | None => None end
+    | VD t f => match fstep sg s (FEDel t f) with Some s1 => Some (s1, log) | None => None end
+    | VX => match fstep sg s FEExtDrop with Some s1 => Some (s1, log) | None => None end
+    end in
+  match r with
+  | Some (s1, log1) => Some (fsettle sg n (6 * n + 6) s1, log1)
+  | None => None
+  end.
+
+Fixpoint frun_vis (sg : bool) (changes : list change) (acc : fstate * list obs) (vs : list vis)
+  : option (fstate * list obs) :=
+  match vs with
+  | [] => Some acc
+  | v :: vs' => match fvis_step sg changes acc v with
+                | Some acc' => frun_vis sg changes acc' vs'
+                | None => None
+                end
+  end.
+
+Definition fres_of (p : fpc) : option result := match p with FDone r => Some r | _ => None end.
+
+Definition fvis_summary (sg : bool) (r0 : option index) (changes : list change) (vs : list vis)
+  : option (list (option result) * option (list N) * list obs * nat) :=
+  match frun_vis sg changes (finit r0 (match r0 with Some x => [x] | None => [] end), []) vs with
+  | Some (s, log) =>
+      Some (map (fun t => fres_of (f_pcs s t)) (seq 0 (length changes)),
+            match f_reg s with Some l => Some (map dkey l) | None => None end, log,
+            length (dedup_idx (filter (fun x => negb (is_cur (f_reg s) x)) (f_store s))))
+  | None => None
+  end.
